@@ -264,12 +264,77 @@ def malformed(ctx, scratch):
             ctx.malformed_outcome(tag + type(e).__name__)
 
 
+def reuse_case(ctx, c, scratch, nsteps=2):
+    """k-table mode, one model object: model() -> change a parameter through the public setters -> model() again;
+    the spectrum must equal that of a freshly built k-mode model with the new values"""
+    rng = ctx.rng
+    kind = 'transmission' if c['family'] == 'transmission' else 'emission'
+    spec = dict(c['spec'], gases=dict(c['spec']['gases']))
+    w = np.asarray(c['weights'], float)
+    wn = np.asarray(c['wn'], float)
+    with E.CacheState():
+        E.install_ktables(scratch, {nm: (t['tg'], t['pg'], np.asarray(t['kcoeff'], float), wn, w)
+                                    for nm, t in c['tables'].items()})
+        cias = [E.mem_cia(c['cia']['pair'], c['cia']['tg'], np.asarray(c['cia']['tab'], float), wn)] if c.get('cia') else []
+        E.install_cia(cias)
+        try:
+            m = E.build_model(kind, dict(spec))
+            m.model()
+        except Exception as e:
+            ctx.violation('raises:ktables:' + c['family'], 'k-table run raised %r on a valid input' % (e,), c)
+            return
+        params = ['star_temperature', 'planet_radius', 'planet_mass', 'gas', 'pmax']
+        if kind == 'emission':
+            params.append('ngauss')
+        if np.ndim(spec['T']) == 0:
+            params += ['T', 'T']
+        for step in range(nsteps):
+            p = str(rng.choice(params))
+            if p == 'star_temperature':
+                spec['ts'] = float(rng.uniform(3000, 9000))
+                m.star.temperature = spec['ts']
+            elif p == 'planet_radius':
+                spec['rp'] = float(rng.uniform(0.5, 1.6))
+                m['planet_radius'] = spec['rp']
+            elif p == 'planet_mass':
+                spec['mp'] = float(rng.uniform(0.3, 5))
+                m['planet_mass'] = spec['mp']
+            elif p == 'gas':
+                g = str(rng.choice(sorted(spec['gases'])))
+                spec['gases'][g] = float(10 ** rng.uniform(-7, -2))
+                m[g] = spec['gases'][g]
+            elif p == 'ngauss':
+                spec['ngauss'] = int(rng.integers(1, 7))
+                m.set_num_gauss(spec['ngauss'])
+            elif p == 'pmax':
+                spec['pmax'] = float(10 ** rng.uniform(4, 7))
+                m['atm_max_pressure'] = spec['pmax']
+            else:
+                spec['T'] = float(rng.uniform(300, 2800))
+                m['T'] = spec['T']
+            case = dict(c, spec=dict(spec, gases=dict(spec['gases'])), reuse=dict(step=step, changed=p))
+            try:
+                flux = np.array(m.model()[1], float).ravel()
+                fresh = np.array(E.build_model(kind, dict(case['spec'])).model()[1], float).ravel()
+            except Exception as e:
+                ctx.violation('stale-state:raises:' + p, 'k-mode model raised %r after a parameter change' % (e,), case)
+                return
+            ctx.case(key=None, bucket='reuse:' + p)
+            ctx.disagreements_checked += 1
+            if flux.shape != fresh.shape or not C.close(flux, fresh, rel=1e-9):
+                ctx.violation('stale-state:differs-from-fresh:' + p, 'a reused k-mode model object does not return the '
+                              'spectrum of a freshly built model after changing ' + p, case,
+                              dict(reused=flux, fresh=fresh))
+
+
 def run(ctx):
     validate_transk(ctx)
     scratch = tempfile.mkdtemp(prefix='verif_c20_')
     try:
         for k in range(ctx.n(320, 11000)):
             eval_case(ctx, gen_case(ctx.rng, k, thorough=not ctx.quick), scratch)
+        for k in range(ctx.n(60, 1000)):
+            reuse_case(ctx, gen_case(ctx.rng, k, thorough=False), scratch)
         malformed(ctx, scratch)
     finally:
         shutil.rmtree(scratch, ignore_errors=True)
@@ -278,6 +343,7 @@ def run(ctx):
 def replay(ctx, case):
     case = dict(case)
     case.pop('small', None)
+    case.pop('reuse', None)       # a reuse-stream case replays as a fresh run on the final parameter values
     scratch = tempfile.mkdtemp(prefix='verif_c20_')
     try:
         eval_case(ctx, case, scratch)
